@@ -710,7 +710,7 @@ def c06_scenario(rep, binary, workdir, rng):
         brg, dist = rng.uniform(0, 2 * math.pi), rng.uniform(0, 30 * 1852.0)
         lat = rlat + math.degrees(dist * math.cos(brg) / 6371000.0)
         lon = rlon + math.degrees(dist * math.sin(brg) / 6371000.0 / max(0.2, math.cos(math.radians(rlat))))
-        acs.append({"aa": rng.randrange(1, 1 << 24), "df": rng.choice([17, 17, 18]), "cf": rng.choice([0, 1, 2, 5, 6]),
+        acs.append({"aa": rng.choice([0, 0xFFFFFF, 1]) if rng.randrange(6) == 0 else rng.randrange(0, 1 << 24), "df": rng.choice([17, 17, 18]), "cf": rng.choice([0, 1, 2, 5, 6]),
                     "lat": lat, "lon": lon, "vn": rng.uniform(-30, 30), "ve": rng.uniform(-30, 30), "surface": rng.random() < 0.35, "odd": 0})
     if len({a["aa"] for a in acs}) != len(acs):
         return
